@@ -20,6 +20,19 @@ ASSUMPTIONS = ["request options are well typed (values is a list); NaN/Infinity 
                "now and leeway are integers"]
 
 NAMES = ["aud", "exp", "nbf", "iat", "iss", "sub", "jti", "x", "validate", ""]
+
+
+def _more_names():
+    """Claim names that could collide with the registry's own attributes: the per-claim validator is looked up by name
+    (`validate_<claim>`), so every such suffix present on the live class - today aud/exp/iat/nbf - and the names of its other
+    members and concepts are offered as private claims; only aud/exp/nbf/iat have built-in rules."""
+    from joserfc.jwt import JWTClaimsRegistry
+    dyn = [a[len("validate_"):] for a in dir(JWTClaimsRegistry) if a.startswith("validate_")]
+    fixed = ["essential", "claims", "value", "values", "options", "check_value", "essential_keys", "allow_blank", "registry"]
+    return [n for n in dict.fromkeys(dyn + fixed) if n not in NAMES]
+
+
+MORE = None
 VALUES = [None, True, False, 0, 1, "", "a", "b", "https://iss", ["a"], ["a", "b"], [], ["x", 1], {}, {"k": 1}, 1.5, 2 ** 40, -1]
 
 
@@ -95,11 +108,14 @@ def time_values(now, leeway, rng):
 def gen_case(rng):
     now = rng.choice([0, 1000, 1700000000, rng.randrange(0, 2 ** 33)])
     leeway = rng.choice([0, 0, 1, 60, 300, -5])
+    global MORE
+    if MORE is None:
+        MORE = _more_names()
     options = {}
-    for name in rng.sample(NAMES, rng.randrange(0, 4)):
+    for name in rng.sample(NAMES, rng.randrange(0, 4)) + ([rng.choice(MORE)] if rng.random() < 0.25 else []):
         options[name] = gen_option(rng)
     claims = {}
-    for name in rng.sample(NAMES, rng.randrange(0, 5)):
+    for name in rng.sample(NAMES, rng.randrange(0, 5)) + rng.sample(MORE, rng.choice([0, 0, 1, 1, 2])):
         if name in ("exp", "nbf", "iat") and rng.random() < 0.8:
             claims[name] = rng.choice(time_values(now, leeway, rng))
         elif name in options and rng.random() < 0.5:
